@@ -631,4 +631,272 @@ theorem host_agree {hp hs : List Char} (h : parseHost hp = some hs) :
           have hforb' : (lower (pctDecode bh)).any forbiddenDomain = false := by simpa using hforb
           rw [host_agree_domain h hne hhead hbp hforb']
 
+/-! ### the browser on a string of the shape Go accepts -/
+
+theorem stripTrail_append {p t : List Char} (hp : ∀ c ∈ p, c0space c = false) :
+    stripTrail (p ++ t) = p ++ stripTrail t := by
+  induction p with
+  | nil => rfl
+  | cons c cs ih =>
+    have hc := hp c List.mem_cons_self
+    have ih' := ih (fun x hx => hp x (List.mem_cons_of_mem _ hx))
+    simp only [List.cons_append, stripTrail, ih', hc]
+    split
+    · rename_i heq; simp [heq]
+    · rfl
+
+theorem stripTrail_cons {d : Char} (t : List Char) (hd : c0space d = false) :
+    ∃ t', stripTrail (d :: t) = d :: t' := by
+  simp only [stripTrail, hd]
+  split
+  · exact ⟨[], by simp⟩
+  · exact ⟨_, rfl⟩
+
+theorem dropTabNl_append_safe {p t : List Char} (hp : ∀ c ∈ p, safeC c) :
+    dropTabNl (p ++ t) = p ++ dropTabNl t := by
+  unfold dropTabNl
+  rw [List.filter_append]
+  congr 1
+  apply List.filter_eq_self.mpr
+  intro c hc
+  exact not_tabnl_of_safeC (hp c hc)
+
+theorem bSchemeRest_append {s rest : List Char} (hs : ∀ c ∈ s, schemeChar c = true) :
+    bSchemeRest (s ++ ':' :: rest) = some (lower s, rest) := by
+  induction s with
+  | nil => simp [bSchemeRest, lower]
+  | cons c cs ih =>
+    have hc := hs c List.mem_cons_self
+    have hne : c ≠ ':' := (safeC_of_schemeChar hc).2
+    have ih' := ih (fun x hx => hs x (List.mem_cons_of_mem _ hx))
+    simp [bSchemeRest, hne, hc, ih', lower]
+
+theorem takeWhile_append_stop {p : Char → Bool} {a t : List Char} (ha : ∀ c ∈ a, p c = true)
+    (ht : t = [] ∨ ∃ d t', t = d :: t' ∧ p d = false) : (a ++ t).takeWhile p = a := by
+  induction a with
+  | nil =>
+    rcases ht with rfl | ⟨d, t', rfl, hd⟩
+    · rfl
+    · simp [List.takeWhile_cons, hd]
+  | cons c cs ih =>
+    simp [List.takeWhile_cons, ha c List.mem_cons_self, ih (fun x hx => ha x (List.mem_cons_of_mem _ hx))]
+
+/-- the characters of an authority that Go accepted: safe, and none of the Go-side delimiters -/
+def authC (c : Char) : Prop := safeC c ∧ c ≠ '/' ∧ c ≠ '?' ∧ c ≠ '#'
+
+theorem authC_not_end {c : Char} (h : authC c) : (!authEnd c) = true ∧ isSlash c = false := by
+  obtain ⟨⟨_, h1⟩, h2, h3, h4⟩ := h
+  simp [authEnd, isSlash, h1, h2, h3, h4]
+
+/-- **Browser on a Go-shaped string**: scheme, `://`, an authority of safe characters, then nothing or a
+`/ ? #` delimiter: the browser's authority is exactly Go's authority -/
+theorem browser_on_shape {a : Char} {sch' auth tail : List Char}
+    (ha : isAlpha a = true) (hs : ∀ c ∈ sch', schemeChar c = true) (hl : lower (a :: sch') = https)
+    (hauth : ∀ c ∈ auth, authC c) (hne : auth ≠ [])
+    (htail : tail = [] ∨ ∃ d t, tail = d :: t ∧ (d = '/' ∨ d = '?' ∨ d = '#')) :
+    browserHost ((a :: sch') ++ ':' :: '/' :: '/' :: auth ++ tail) = bAuthority auth := by
+  have hsall : ∀ c ∈ a :: sch', schemeChar c = true := by
+    intro c hc
+    cases hc with
+    | head => exact schemeChar_of_isAlpha ha
+    | tail _ h => exact hs c h
+  -- every character in front of the tail is safe
+  have hpre : ∀ c ∈ (a :: sch') ++ ':' :: '/' :: '/' :: auth, safeC c := by
+    intro c hc
+    simp only [List.mem_append, List.mem_cons] at hc
+    rcases hc with hc | rfl | rfl | rfl | hc
+    · exact (safeC_of_schemeChar (hsall c (by simpa using hc))).1
+    · exact safeC_colon
+    · exact safeC_slash
+    · exact safeC_slash
+    · exact (hauth c hc).1
+  have hassoc : (a :: sch') ++ ':' :: '/' :: '/' :: auth ++ tail =
+      ((a :: sch') ++ ':' :: '/' :: '/' :: auth) ++ tail := by simp
+  -- the tail after preprocessing is still empty or starts with its delimiter
+  obtain ⟨tail2, hpp, htail2⟩ : ∃ tail2, dropTabNl (stripTrail (stripLead
+      ((a :: sch') ++ ':' :: '/' :: '/' :: auth ++ tail))) = ((a :: sch') ++ ':' :: '/' :: '/' :: auth) ++ tail2 ∧
+      (tail2 = [] ∨ ∃ d t', tail2 = d :: t' ∧ (!authEnd d) = false) := by
+    have h1 : stripLead ((a :: sch') ++ ':' :: '/' :: '/' :: auth ++ tail) =
+        (a :: sch') ++ ':' :: '/' :: '/' :: auth ++ tail := by
+      have := not_c0space_of_safeC (safeC_of_schemeChar (schemeChar_of_isAlpha ha)).1
+      simp [stripLead, this]
+    rw [h1, hassoc, stripTrail_append (fun c hc => not_c0space_of_safeC (hpre c hc))]
+    rw [dropTabNl_append_safe hpre]
+    rcases htail with rfl | ⟨d, t, rfl, hd⟩
+    · exact ⟨[], by simp [stripTrail, dropTabNl], Or.inl rfl⟩
+    · have hsafe : safeC d := by rcases hd with rfl | rfl | rfl <;> exact ⟨by decide, by decide⟩
+      obtain ⟨t', ht'⟩ := stripTrail_cons t (not_c0space_of_safeC hsafe)
+      rw [ht']
+      have : dropTabNl (d :: t') = d :: dropTabNl t' := by
+        unfold dropTabNl
+        exact List.filter_cons_of_pos (not_tabnl_of_safeC hsafe)
+      rw [this]
+      refine ⟨_, rfl, Or.inr ⟨d, _, rfl, ?_⟩⟩
+      rcases hd with rfl | rfl | rfl <;> decide
+  unfold browserHost
+  rw [hpp]
+  unfold bAfterScheme
+  have hsplit : ((a :: sch') ++ ':' :: '/' :: '/' :: auth) ++ tail2 =
+      (a :: sch') ++ ':' :: ('/' :: '/' :: (auth ++ tail2)) := by simp
+  have hsch : bScheme ((a :: sch') ++ ':' :: ('/' :: '/' :: (auth ++ tail2))) =
+      some (lower (a :: sch'), '/' :: '/' :: (auth ++ tail2)) := by
+    have := bSchemeRest_append (rest := '/' :: '/' :: (auth ++ tail2)) hsall
+    simp only [List.cons_append] at this ⊢
+    simp only [bScheme, ha, if_true]
+    exact this
+  rw [hsplit, hsch]
+  simp only [hl, ne_eq, not_true_eq_false, if_false]
+  congr 1
+  obtain ⟨a0, auth', rfl⟩ := List.exists_cons_of_ne_nil hne
+  have h0 := authC_not_end (hauth a0 List.mem_cons_self)
+  have hdw : List.dropWhile isSlash ('/' :: '/' :: (a0 :: auth' ++ tail2)) = a0 :: auth' ++ tail2 := by
+    have e1 : isSlash '/' = true := by decide
+    rw [List.dropWhile_cons, if_pos e1, List.dropWhile_cons, if_pos e1]
+    show List.dropWhile isSlash (a0 :: (auth' ++ tail2)) = _
+    rw [List.dropWhile_cons, if_neg (by simp [h0.2])]
+    rfl
+  rw [hdw]
+  exact takeWhile_append_stop (fun c hc => (authC_not_end (hauth c hc)).1) htail2
+
+/-! ### shape of a string that Go parses as https with a host -/
+
+theorem mem_takeWhile_sat {p : Char → Bool} {l : List Char} {x : Char} (h : x ∈ l.takeWhile p) : p x = true := by
+  induction l with
+  | nil => simp at h
+  | cons a as ih =>
+    rw [List.takeWhile_cons] at h
+    split at h
+    · rename_i ha
+      cases h with
+      | head => exact ha
+      | tail _ h' => exact ih h'
+    · cases h
+
+theorem getScheme_shape {u sch rest : List Char} (h : getScheme u = some (sch, rest)) (hne : sch ≠ []) :
+    ∃ a sch', sch = a :: sch' ∧ isAlpha a = true ∧ (∀ c ∈ sch', schemeChar c = true) ∧ u = sch ++ ':' :: rest := by
+  unfold getScheme at h
+  split at h
+  · simp at h; exact absurd h.1 hne
+  · rename_i c cs
+    split at h
+    · cases h
+    · split at h
+      · simp at h; exact absurd h.1 hne
+      · rename_i hc1 hal
+        have hal' : isAlpha c = true := by simpa using hal
+        split at h
+        · simp at h; exact absurd h.1 hne
+        · rename_i d rest' hdw
+          split at h
+          · rename_i hd
+            simp at h
+            obtain ⟨rfl, rfl⟩ := h
+            subst hd
+            have hsc : schemeChar c = true := schemeChar_of_isAlpha hal'
+            refine ⟨c, cs.takeWhile schemeChar, ?_, hal', ?_, ?_⟩
+            · simp [List.takeWhile_cons, hsc]
+            · intro x hx; exact mem_takeWhile_sat hx
+            · rw [← hdw]; exact (List.takeWhile_append_dropWhile).symm
+          · simp at h; exact absurd h.1 hne
+
+theorem lower_ne_nil {l : List Char} (h : lower l = https) : l ≠ [] := by
+  intro e; subst e; simp [lower, https] at h
+
+/-- nothing, or a list that starts with one of Go's three delimiters -/
+def tailOK (t : List Char) : Prop := t = [] ∨ ∃ d t', t = d :: t' ∧ (d = '/' ∨ d = '?' ∨ d = '#')
+
+theorem tailOK_three (a b c : List Char)
+    (ha : a = [] ∨ ∃ t, a = '/' :: t) (hb : b = [] ∨ ∃ t, b = '?' :: t) (hc : c = [] ∨ ∃ t, c = '#' :: t) :
+    tailOK (a ++ b ++ c) := by
+  rcases ha with rfl | ⟨t, rfl⟩
+  · rcases hb with rfl | ⟨t, rfl⟩
+    · rcases hc with rfl | ⟨t, rfl⟩
+      · left; rfl
+      · right; exact ⟨'#', t, rfl, Or.inr (Or.inr rfl)⟩
+    · right; exact ⟨'?', t ++ c, rfl, Or.inr (Or.inl rfl)⟩
+  · right; exact ⟨'/', t ++ b ++ c, by simp, Or.inl rfl⟩
+
+theorem finishPath_some {sc ho rq re : List Char} {p : Parsed} (h : finishPath sc ho rq re = some p) :
+    p.scheme = sc ∧ p.host = ho ∧ p.rawQuery = rq := by
+  unfold finishPath at h
+  split at h
+  · simp at h; subst h; exact ⟨rfl, rfl, rfl⟩
+  · cases h
+
+theorem startsSlashSlash_shape {r : List Char} (h : startsSlashSlash r = true) : r = '/' :: '/' :: r.drop 2 := by
+  match r with
+  | [] => simp [startsSlashSlash] at h
+  | [a] => simp [startsSlashSlash] at h
+  | a :: b :: t =>
+    simp [startsSlashSlash] at h
+    obtain ⟨rfl, rfl⟩ := h
+    rfl
+
+/-- **Shape of an accepted string**: if Go parses `s` with scheme https and a non-empty host, then `s` is
+a scheme, `://`, an authority without `/ ? #`, and then nothing or one of those delimiters -/
+theorem goParse_shape {s : List Char} {p : Parsed} (h : goParse s = some p) (hsch : p.scheme = https)
+    (hh : p.host ≠ []) :
+    ∃ a sch' auth tail hs, s = (a :: sch') ++ ':' :: '/' :: '/' :: auth ++ tail ∧ isAlpha a = true ∧
+      (∀ c ∈ sch', schemeChar c = true) ∧ lower (a :: sch') = https ∧
+      (∀ c ∈ auth, c ≠ '/' ∧ c ≠ '?' ∧ c ≠ '#') ∧ tailOK tail ∧
+      parseAuthority auth = some hs ∧ p.host = hostname hs := by
+  unfold goParse at h
+  split at h
+  · cases h
+  · rename_i p0 hp0
+    have hpp : p0 = p := by
+      split at h
+      · simpa using h
+      · cases h
+    subst hpp
+    clear h
+    unfold parseNoFrag at hp0
+    split at hp0
+    · cases hp0
+    · split at hp0
+      · simp at hp0; subst hp0; simp [https] at hsch
+      · split at hp0
+        · cases hp0
+        · rename_i sch rest hgs
+          unfold parseRest at hp0
+          split at hp0
+          · simp at hp0; subst hp0; exact absurd rfl hh
+          · split at hp0
+            · cases hp0
+            · split at hp0
+              · rename_i hcond
+                split at hp0
+                · cases hp0
+                · rename_i h0 hpa
+                  obtain ⟨e1, e2, _⟩ := finishPath_some hp0
+                  have hlow : lower sch = https := by rw [← e1]; exact hsch
+                  obtain ⟨a, sch', rfl, hal, hsc, hu⟩ := getScheme_shape hgs (lower_ne_nil hlow)
+                  have hr := startsSlashSlash_shape hcond.2
+                  refine ⟨a, sch', before '/' ((before '?' rest).drop 2),
+                    fromFirst '/' ((before '?' rest).drop 2) ++ fromFirst '?' rest ++ fromFirst '#' s, h0,
+                    ?_, hal, hsc, hlow, ?_, ?_, hpa, e2⟩
+                  · -- reassemble s
+                    have s1 := (before_append_fromFirst '#' s).symm
+                    have s2 := (before_append_fromFirst '?' rest).symm
+                    have s3 := (before_append_fromFirst '/' ((before '?' rest).drop 2)).symm
+                    calc s = before '#' s ++ fromFirst '#' s := s1
+                      _ = (a :: sch' ++ ':' :: rest) ++ fromFirst '#' s := by rw [← hu]
+                      _ = (a :: sch' ++ ':' :: (before '?' rest ++ fromFirst '?' rest)) ++ fromFirst '#' s := by rw [← s2]
+                      _ = (a :: sch' ++ ':' :: (('/' :: '/' :: (before '?' rest).drop 2) ++ fromFirst '?' rest)) ++
+                            fromFirst '#' s := by rw [← hr]
+                      _ = (a :: sch' ++ ':' :: (('/' :: '/' :: (before '/' ((before '?' rest).drop 2) ++
+                            fromFirst '/' ((before '?' rest).drop 2))) ++ fromFirst '?' rest)) ++
+                            fromFirst '#' s := by rw [← s3]
+                      _ = _ := by simp
+                  · intro c hc
+                    have m1 := mem_before hc
+                    have m2 : c ∈ before '?' rest := List.mem_of_mem_drop m1.1
+                    have m3 := mem_before m2
+                    have m4 : c ∈ before '#' s := by rw [hu]; simp [m3.1]
+                    exact ⟨m1.2, m3.2, (mem_before m4).2⟩
+                  · exact tailOK_three _ _ _ (fromFirst_nil_or_cons _ _) (fromFirst_nil_or_cons _ _)
+                      (fromFirst_nil_or_cons _ _)
+              · obtain ⟨_, e2, _⟩ := finishPath_some hp0
+                exact absurd e2 hh
+
 end KM.Redirect
